@@ -151,7 +151,36 @@ fn check_whole(
     Ok(())
 }
 
+/// one construct nested far deeper than the random generator goes, around a small commented
+/// payload: every level is laid out on lines of its own at narrow widths, so the payload ends
+/// up indented by hundreds of columns
+pub fn deep_texts() -> Vec<Case> {
+    let mut v = Vec::new();
+    let payloads = ["[1, // one\n 2, 3]", "{a: 1, // first\n b: 2}", "[1, 2, 3]", "do {\n  // note\n  t = [1, // one\n 2]\n  return t\n}"];
+    let shells: &[(&str, &str)] = &[("[", "]"), ("{k: ", "}"), ("[0, ", "]"), ("(q => ", ")"), ("if true then ", " else 0"), ("do {\n return ", "\n}"), ("idf(", ")"), ("[{k: ", "}]")];
+    for depth in [30usize, 60, 85, 110] {
+        for (open, close) in shells {
+            for payload in payloads {
+                let mut t = String::from("x = ");
+                for _ in 0..depth {
+                    t.push_str(open);
+                }
+                t.push_str(payload);
+                for _ in 0..depth {
+                    t.push_str(close);
+                }
+                t.push('\n');
+                for width in [1u16, 40, 80, 200] {
+                    v.push(Case { prog: vec![], layout: vec![], width, cli: false, text: Some(t.clone()), typed: false });
+                }
+            }
+        }
+    }
+    v
+}
+
 pub fn run(ctx: &mut Ctx) {
+    ctx.run_enum(&Meaning, deep_texts().into_iter(), false);
     ctx.run_random(&Meaning, fmt::strategy(5, 4), ctx.tier.pick(30_000, 500_000));
     ctx.run_random(&Meaning, fmt::strategy(2, 7), ctx.tier.pick(10_000, 200_000));
     ctx.run_random(&Meaning, fmt::typed_strategy(), ctx.tier.pick(10_000, 200_000));
